@@ -155,6 +155,7 @@ pub fn run(ctx: &Ctx) -> Rep {
     // a related predecessor (same low bits / a power of two apart / byte-swapped / itself); if that rank is not
     // identical to the table's, it is compared against the whole table with every clause.
     {
+        let all_preds = (ctx.thorough() || ctx.escalate) && !ctx.smoke();
         let s3 = par_run(ctx, chunks.len(), mk, |st, ci| {
             for &a in chunks[ci] {
                 let mut preds: Vec<u16> = vec![a, !a, a.swap_bytes()];
@@ -162,6 +163,9 @@ pub fn run(ctx: &Ctx) -> Rep {
                     preds.push(a ^ (1 << j));
                     preds.push(a.wrapping_add(1 << j));
                     preds.push(a.wrapping_sub(1 << j));
+                }
+                if all_preds {
+                    preds = vals.clone();
                 }
                 for b in preds {
                     let _ = HandRank::from(b);
